@@ -116,7 +116,11 @@ class Aff(AbstractValue):
             e, neg = e.scale(-1).add(Aff({}, 1), -1), not neg
         return Cond(('aff', 'ge0', repr(e)), negated=neg)
 
+    on_truth = None     # optional observer: called with the Aff whose truthiness is being tested
+
     def abs_truth(self, interp):
+        if Aff.on_truth is not None:
+            Aff.on_truth(self)
         if self.is_const():
             return self.const != 0
         return Cond(('aff', 'eq', repr(self)), negated=True).abs_truth(interp)
